@@ -3987,7 +3987,7 @@ pub struct Context {
     idm: Singleton<IdManager>,
     document: Rc<XmlItem>,
     ordering: Singleton<DocumentOrder>,
-    id_map: Singleton<HashMap<usize, Weak<XmlItem>>>,
+    id_map: Singleton<HashMap<usize, Rc<XmlItem>>>,
     text_expanded: bool,
 }
 
@@ -4010,12 +4010,12 @@ impl Context {
 
         let info = singleton(ContextInfo::from(id));
 
-        let document = Rc::new(value.into());
+        let document: Rc<XmlItem> = Rc::new(value.into());
 
         let id_map = singleton(HashMap::new());
         id_map
             .borrow_mut()
-            .insert(info.borrow().id, Rc::downgrade(&document));
+            .insert(info.borrow().id, document.clone());
 
         Context {
             info,
@@ -4030,7 +4030,7 @@ impl Context {
     fn add_item(&self, node: &Rc<XmlItem>) {
         self.id_map
             .borrow_mut()
-            .insert(self.info.borrow().id, Rc::downgrade(node));
+            .insert(self.info.borrow().id, node.clone());
     }
 
     fn document(&self) -> XmlNode<XmlDocument> {
@@ -4082,7 +4082,7 @@ impl Context {
     }
 
     fn node(&self, id: usize) -> Option<Rc<XmlItem>> {
-        self.id_map.borrow().get(&id).and_then(|v| v.upgrade())
+        self.id_map.borrow().get(&id).cloned()
     }
 
     fn zero(&self) -> Context {
